@@ -90,6 +90,12 @@ def make_files(ck):
         if si % 3 == 0 or ck.thorough():
             add("size-cols", "LP", "min\n obj: " + "".join("+ x%d\n" % i for i in range(N)) + "st\n c1: x0 + x%d >= 1\nbounds\n x%d <= 4\nend\n" % (N - 1, N // 2))
             add("size-cols", "MPS", "NAME s\nROWS\n N obj\n G c1\nCOLUMNS\n" + "".join(" x%d obj 1 c1 1\n" % i for i in range(min(N, 3300))) + "RHS\n RHS c1 1\nBOUNDS\n UP BND x%d 4\nENDATA\n" % (min(N, 3300) // 2))
+    for N in sizes[::6]:
+        # many SOS sets / many members of one set / many integer marker pairs (the reader's SOS and marker tables grow too)
+        K = min(N, 1500)
+        add("size-sos", "MPS", "NAME s\nROWS\n N obj\n L c1\nCOLUMNS\n" + "".join(" S%d SOS%dqs 'MARKER' 'SOSORG'\n x%d obj 1 c1 1\n SOS%dqs 'MARKER' 'SOSEND'\n" % (1 + i % 2, i, i, i) for i in range(K)) + "RHS\n rhs c1 4\nENDATA\n")
+        add("size-sos", "MPS", "NAME s\nROWS\n N obj\n L c1\nCOLUMNS\n S1 SOS0qs 'MARKER' 'SOSORG'\n" + "".join(" x%d obj 1 c1 %d\n" % (i, 1 + i % 9) for i in range(min(N, 3000))) + " SOS0qs 'MARKER' 'SOSEND'\nRHS\n rhs c1 4\nENDATA\n")
+        add("size-markers", "MPS", "NAME s\nROWS\n N obj\n L c1\nCOLUMNS\n" + "".join(" M%d 'MARKER' 'INTORG'\n x%d obj 1 c1 1\n M%d 'MARKER' 'INTEND'\n" % (i, i, i) for i in range(K)) + "RHS\n rhs c1 4\nENDATA\n")
     for N in sizes[::4]:
         add("size-coefs", "LP", "min\n obj: x\nst\n c1: " + "".join("+ %d x%d\n" % (i % 5 + 1, i) for i in range(min(N, 3500))) + " >= 1\nend\n")
         add("size-entries", "MPS", "NAME s\nROWS\n N obj\n" + "".join(" L r%d\n" % i for i in range(min(N, 2500))) + "COLUMNS\n" +
